@@ -27,6 +27,11 @@ type Machine struct {
 	Presented []*z80.Interrupt        // every request the controller put into the slot, in order
 	Hook      func(m *Machine, a Acc) // extra per-access hook (after the controller)
 	NoPresent bool                    // when set the controller never touches cpu.Interrupt
+	// Mutated: set when a kept request value was found modified (see request()).
+	Mutated string
+	// ReuseRequests: see request(). Set by NewMachine from the scenario (odd IOSeed).
+	ReuseRequests bool
+	reqCache      map[string]*z80.Interrupt
 	// SwapMode: 1 = SwapDevices(false) at every boundary, 2 = SwapDevices(true) (host fault, see SwapDevices)
 	SwapMode int
 }
@@ -38,15 +43,40 @@ func NewMachine(regs Regs, segs []Seg, ioSeed uint64, evs []Event) (*Machine, er
 		return nil, err
 	}
 	m.Bus.IOSeed = ioSeed
+	m.ReuseRequests = ioSeed&1 == 1 && ioSeed != 1
 	m.CPU = &z80.CPU{States: regs.States(), Memory: m.Bus.Memory(), IO: m.Bus.IO(), RETNHandler: m.Cnt, RETIHandler: m.Cnt}
 	m.Bus.OnAccess = m.onAccess
 	m.Cnt.OnRet = m.onRet
 	return m, nil
 }
 
+// request returns the library request value for event i. In machines with
+// ReuseRequests the host keeps ONE request value per (kind, data) and puts the
+// same pointer into cpu.Interrupt every time (`var irq = z80.IM1Interrupt()`),
+// so anything the library writes into a request survives to its next use.
+func (m *Machine) request(i int) *z80.Interrupt {
+	if !m.ReuseRequests {
+		return m.evs[i].Request()
+	}
+	key := m.evs[i].Kind + "/" + m.evs[i].Data
+	if m.reqCache == nil {
+		m.reqCache = map[string]*z80.Interrupt{}
+	}
+	if q, ok := m.reqCache[key]; ok {
+		// the value the host kept must still be what the host made it
+		if fresh := m.evs[i].Request(); !SameRequest(q, fresh) && m.Mutated == "" {
+			m.Mutated = "the request value the host keeps for " + key + " was " + FmtRequest(fresh) + " when created and is " + FmtRequest(q) + " now: the library wrote into it"
+		}
+		return q
+	}
+	q := m.evs[i].Request()
+	m.reqCache[key] = q
+	return q
+}
+
 func (m *Machine) enqueue(i int, how string) {
 	m.raised[i] = true
-	m.queue = append(m.queue, m.evs[i].Request())
+	m.queue = append(m.queue, m.request(i))
 	m.Raised[how+"/"+m.evs[i].Kind]++
 }
 
@@ -212,7 +242,7 @@ func (m *Machine) Restore() *Machine {
 	n := &Machine{Bus: nb, Cnt: &Counter{RETN: m.Cnt.RETN, RETI: m.Cnt.RETI}, Steps: m.Steps,
 		evs: m.evs, raised: append([]bool(nil), m.raised...), queue: append([]*z80.Interrupt(nil), m.queue...),
 		Raised: m.Raised, Accepted: m.Accepted, AccSP: m.AccSP, AccPC: m.AccPC, AccKinds: m.AccKinds,
-		Presented: m.Presented, Hook: m.Hook, NoPresent: m.NoPresent, SwapMode: m.SwapMode}
+		Presented: m.Presented, Hook: m.Hook, NoPresent: m.NoPresent, SwapMode: m.SwapMode, ReuseRequests: m.ReuseRequests, reqCache: m.reqCache}
 	n.CPU = &z80.CPU{States: m.CPU.States, Memory: nb.Memory(), IO: nb.IO(), RETNHandler: n.Cnt, RETIHandler: n.Cnt,
 		Interrupt: CloneRequest(m.CPU.Interrupt), BreakPoints: m.CPU.BreakPoints, HALT: m.CPU.HALT}
 	nb.OnAccess = n.onAccess
@@ -233,6 +263,31 @@ func (m *Machine) SwapDevices(fork bool) {
 		m.CPU = &c
 	}
 	m.CPU.Memory, m.CPU.IO = m.Bus.Memory(), m.Bus.IO()
+	if m.CPU.RETNHandler != nil {
+		// the notification handlers are replaced as well (new values forwarding to the same counters)
+		h := &handlerView{m: m, gen: m.Bus.Gen}
+		m.CPU.RETNHandler, m.CPU.RETIHandler = h, h
+	}
+}
+
+// handlerView forwards notifications; one that the host has replaced counts as stale.
+type handlerView struct {
+	m   *Machine
+	gen int
+}
+
+func (h *handlerView) RETNHandle() {
+	if h.gen != h.m.Bus.Gen {
+		h.m.Bus.StaleAcc++
+	}
+	h.m.Cnt.RETNHandle()
+}
+
+func (h *handlerView) RETIHandle() {
+	if h.gen != h.m.Bus.Gen {
+		h.m.Bus.StaleAcc++
+	}
+	h.m.Cnt.RETIHandle()
 }
 
 // Stale reports the accesses that arrived through replaced device values.
